@@ -2866,16 +2866,19 @@ class LinearOperator(object):
         # Replace the ints with slices, and we'll just squeeze the dimensions later
         squeeze_row = False
         squeeze_col = False
+        # (if the row/column dims are absorbed by tensor indices, an int is a plain select: _get_indices handles it)
         if isinstance(row_index, int):
             if row_index < 0:
                 row_index += self.size(-2)
-            row_index = slice(row_index, row_index + 1, None)
-            squeeze_row = True
+            if not row_col_are_absorbed:
+                row_index = slice(row_index, row_index + 1, None)
+                squeeze_row = True
         if isinstance(col_index, int):
             if col_index < 0:
                 col_index += self.size(-1)
-            col_index = slice(col_index, col_index + 1, None)
-            squeeze_col = True
+            if not row_col_are_absorbed:
+                col_index = slice(col_index, col_index + 1, None)
+                squeeze_col = True
 
         # Call self._getitem - now that the index has been processed
         # Alternatively, if we're using tensor indices and losing dimensions, use self._get_indices
